@@ -249,4 +249,4 @@ def run(report, findings):
                 "parentheses, nested calls) over three columns and literals, random blanks; value, received arguments and term name "
                 "compared with Python's eval of the same text; non-trivial = all three agree",
         "samples": [r[0] for r in res[:5]]})
-    report.assumptions = ["values compared with relative tolerance 1e-9"]
+    report.assumptions = list(dict.fromkeys(list(report.assumptions) + ["values compared with relative tolerance 1e-9"]))
